@@ -38,7 +38,7 @@ func VerifC04Chain() {
 	basic := func(s string) string { return "Basic " + base64.StdEncoding.EncodeToString([]byte(s)) }
 	jwtSetup := authenticators.VerifJWTSetup{Parsable: true, SigValid: true, TrustedIssue: true}
 	authz, basicClass, jwtClass := "", vNoCredentials, vNoCredentials
-	switch verifapi.NondetChoice("request.authorization", 12) {
+	switch verifapi.NondetChoice("request.authorization", 13) {
 	case 0: // no header
 	case 1:
 		authz, basicClass = basic(user+":"+password), vSucceeds
@@ -61,8 +61,11 @@ func VerifC04Chain() {
 	case 10: // bearer value that is not a JWS at all: not a credential of the jwt kind
 		jwtSetup.Parsable = false
 		jwtClass = vNoCredentials
-	default: // key set endpoint unreachable
+	case 11: // key set endpoint unreachable
 		jwtSetup.JWKSFails, jwtClass = true, vInfrastructure
+	default: // a well-formed, correctly signed JWT whose (supported) algorithm the assertions do not allow:
+		// credentials of the jwt kind were found and are rejected — not "no credentials"
+		jwtSetup.Alg, jwtClass = "RS256", vRejected
 	}
 
 	// ---- the chain ----
